@@ -44,9 +44,12 @@ class Spec:
         elif jr["end"] == "hang":
             k = jr.get("at")
             op = plan["ops"][k]["op"] if k is not None and k < len(plan["ops"]) else "?"
-            out.append({"prop": self.prop, "oracle": "%s.hang" % w, "at": k,
-                        "msg": "op %s did not return within the wall-clock budget, confirmed by a solo replay in a "
-                               "fresh process [%s engine]" % (op, engine)})
+            how = {"py-linebudget": "reproduced in the interpreted engine: the op exceeds the deterministic "
+                                    "line-event budget"}.get(jr.get("confirmed"),
+                                                             "confirmed by a solo replay in a fresh process with a "
+                                                             "longer budget")
+            out.append({"prop": self.prop, "oracle": "%s.hang" % w, "at": k, "confirmed": jr.get("confirmed"),
+                        "msg": "op %s did not return within the wall-clock budget [%s engine]; %s" % (op, engine, how)})
         return out
 
     def evaluate(self, lane, plan, **kw):
@@ -72,8 +75,48 @@ class C05(Spec):
                "thorough": {"wall": 900, "max_runs": 10 ** 9, "chunk": 100}}
 
 
+class KSpec(Spec):
+    warm_runs = 40
+    assumptions = [
+        "closed-form support values / membership functions in dsim/geom.py are the definition of the shapes",
+        "a 'twin' (brand-new collider built at the model's current pose) is the definition of 'fresh'",
+        "Python-level np.empty is zero-filled in the executor so that uninitialised simplex rows cannot make a run "
+        "irreproducible",
+        "a clean batch is evidence, not proof (seeded sampling of histories)",
+    ]
+    budgets = {"quick": {"wall": 60, "max_runs": 10 ** 9, "chunk": 20},
+               "thorough": {"wall": 900, "max_runs": 10 ** 9, "chunk": 20}}
+
+
+class C03(KSpec):
+    rule = ("one run = one seeded history on 1-4 collider slots (support queries along seeded / axis-aligned / "
+            "sign-boundary / tie directions, bursts of cache-warming queries, narrow-phase calls as history-making ops, "
+            "update_pose), every support answer judged against closed forms and against a cold twin; non-trivial = a "
+            "state-changing op (update_pose, warm burst, narrow-phase call) is followed by a judged support query on "
+            "that history; distinct = distinct history signatures (op kinds, slots, collider kinds, entry points, "
+            "delivery/dup flags)")
+
+
+class C14(KSpec):
+    rule = ("one run = one seeded history of update_pose calls (fresh array / item of a pose stack / duplicated) "
+            "interleaved with support, aabb, center, first_vertex, collider2origin and narrow-phase queries, each "
+            "compared with a twin built directly at the last pose; non-trivial = at least one update_pose followed by "
+            "a judged query; distinct = distinct history signatures")
+
+
+class C19(KSpec):
+    rule = ("one run = one seeded history of narrow-phase calls (all GJK flavours, EPA, MPR) on 1-4 collider slots "
+            "incl. identical object twice, nested, touching, needle/flat, zero-volume hulls, lattice placements, with "
+            "pose changes and cache-warming bursts in between; the virtual clock counts support evaluations per "
+            "collider (budget 1000); non-trivial = at least one narrow-phase call executed; distinct = distinct "
+            "history signatures")
+
+
 _SPECS = {
+    "C03": (C03, "K"),
     "C05": (C05, "T"),
+    "C14": (C14, "K"),
+    "C19": (C19, "K"),
 }
 PROPS = dict(_SPECS)
 
